@@ -632,7 +632,52 @@ fn quick_pair(sc: &mut Sc, name: &str, res_i: &str, res_r: &str, seed: u64, stat
             let _ = sc.ex.raw_split(2);
         }
     }
+    // the split keys of the finished handshake (for manual rekeys "back to the split key")
+    sc.raw_keys = sc.ex.raw_split(1).and_then(|(a, b)| Some((<[u8; 32]>::try_from(a.as_slice()).ok()?, <[u8; 32]>::try_from(b.as_slice()).ok()?)));
     sc.ex.convert(1, stateless).is_ok() && sc.ex.convert(2, stateless).is_ok()
+}
+
+/// Keys for manual rekeys: mostly fresh random keys, but also keys installed earlier in the scenario (an application
+/// going back to a key), the split keys of the handshake, and the all-zero / all-0xff keys. Returns the key and its
+/// symbolic identity for direction `d` ("k" when it is that direction's own split key).
+pub struct KeyPool {
+    used: Vec<[u8; 32]>,
+    raw: Option<([u8; 32], [u8; 32])>,
+    /// the key last installed by hand (or by the split) per direction: "manual K, specification rekeys, manual K again"
+    last: [Option<[u8; 32]>; 2],
+}
+impl KeyPool {
+    pub fn new(raw: Option<([u8; 32], [u8; 32])>) -> Self {
+        KeyPool { used: vec![], raw, last: [raw.map(|x| x.0), raw.map(|x| x.1)] }
+    }
+    pub fn pick(&mut self, r: &mut Rng64, d: usize) -> ([u8; 32], String) {
+        let (k, id) = self.pick0(r, d);
+        self.last[d] = Some(k);
+        (k, id)
+    }
+    fn pick0(&mut self, r: &mut Rng64, d: usize) -> ([u8; 32], String) {
+        let roll = r.below(130);
+        let k: [u8; 32] = if roll >= 100 && self.last[d].is_some() {
+            self.last[d].unwrap()
+        } else if roll < 18 && !self.used.is_empty() {
+            self.used[r.below(self.used.len())]
+        } else if roll < 26 {
+            [0u8; 32]
+        } else if roll < 30 {
+            [0xffu8; 32]
+        } else if roll < 42 && self.raw.is_some() {
+            let (a, b) = self.raw.unwrap();
+            if (roll % 3 == 0) == (d == 0) { b } else { a }
+        } else {
+            r.bytes(32).try_into().unwrap()
+        };
+        if !self.used.contains(&k) {
+            self.used.push(k);
+        }
+        let own = self.raw.map(|(a, b)| if d == 0 { a } else { b });
+        let id = if own == Some(k) { "k".to_string() } else { format!("M({})", hex(&k)) };
+        (k, id)
+    }
 }
 
 #[derive(Clone, Debug)]
@@ -668,6 +713,7 @@ pub fn run_transport(cfg: &TransportCfg, sc: &mut Sc) {
         inst_of(&pat, &[]).map_or(false, |i| i.msgs.len() == 1)
     };
     let mut r = Rng64(cfg.seed ^ 0x7472616e73);
+    let mut pool = KeyPool::new(sc.raw_keys);
     // per direction: sent messages (nonce, bytes, payload, sender's key identity at that time) and the
     // abstract state: counters and symbolic key identities ("k", "R(k)", "M(<hex>)", ...)
     struct Dir {
@@ -681,9 +727,15 @@ pub fn run_transport(cfg: &TransportCfg, sc: &mut Sc) {
         Dir { sent: vec![], send_n: 0, recv_n: 0, send_key: "k".into(), recv_key: "k".into() },
         Dir { sent: vec![], send_n: 0, recv_n: 0, send_key: "k".into(), recv_key: "k".into() },
     ];
+    // the remote static key reported right after conversion: whatever happens in transport mode (refused calls at the
+    // end of the counter range, rekeys, manual rekeys of both directions) it must keep being reported (C17)
+    let rs0: [Option<Vec<u8>>; 2] = [sc.ex.query(1).and_then(|q| q.rs), sc.ex.query(2).and_then(|q| q.rs)];
     let check_nonces = |sc: &mut Sc, dirs: &[Dir; 2]| {
         for (sid, initiator) in [(1u32, true), (2u32, false)] {
             if let Some(q) = sc.ex.query(sid) {
+                if q.rs != rs0[(sid - 1) as usize] {
+                    sc.viol("C17", format!("{}: sid {sid} in transport mode reports remote static {:?}, at conversion it was {:?}", cfg.name, q.rs.as_ref().map(|v| hex(v)), rs0[(sid - 1) as usize].as_ref().map(|v| hex(v))));
+                }
                 let (sd, rd) = if initiator { (0, 1) } else { (1, 0) };
                 if q.sn != Some(dirs[sd].send_n) {
                     sc.viol("C09", format!("{}: sid {sid} sending nonce {:?}, expected {}", cfg.name, q.sn, dirs[sd].send_n));
@@ -947,14 +999,14 @@ pub fn run_transport(cfg: &TransportCfg, sc: &mut Sc) {
                 sc.check_panic(&o, "rekey_outgoing");
                 dirs[d].send_key = rk;
             } else {
-                let k: [u8; 32] = r.bytes(32).try_into().unwrap();
+                let (k, kid) = pool.pick(&mut r, d);
                 let (ki, kr) = if d == 0 { (Some(&k), None) } else { (None, Some(&k)) };
                 let o = sc.ex.rekey_manual(w, ki, kr);
                 sc.check_panic(&o, "rekey_manually");
                 let o = sc.ex.rekey_manual(rd, ki, kr);
                 sc.check_panic(&o, "rekey_manually");
-                dirs[d].send_key = format!("M({})", hex(&k));
-                dirs[d].recv_key = format!("M({})", hex(&k));
+                dirs[d].send_key = kid.clone();
+                dirs[d].recv_key = kid;
             }
             sc.count("t.rekey_resync");
         } else if action < 81 {
@@ -971,8 +1023,8 @@ pub fn run_transport(cfg: &TransportCfg, sc: &mut Sc) {
             sc.count("t.rekey_onesided");
         } else if action < 88 {
             // manual rekey of direction d on one or both sides
-            let k: [u8; 32] = r.bytes(32).try_into().unwrap();
-            let k2: [u8; 32] = r.bytes(32).try_into().unwrap();
+            let (k, kid) = pool.pick(&mut r, d);
+            let (k2, kid2) = pool.pick(&mut r, 1 - d);
             let both = r.chance(5, 6);
             // sometimes both direction keys are replaced in one call
             let two = r.chance(1, 3);
@@ -989,16 +1041,16 @@ pub fn run_transport(cfg: &TransportCfg, sc: &mut Sc) {
             }
             let o = sc.ex.rekey_manual(w, ki, kr);
             sc.check_panic(&o, "rekey_manually");
-            dirs[d].send_key = format!("M({})", hex(&k));
+            dirs[d].send_key = kid.clone();
             if two {
-                dirs[1 - d].recv_key = format!("M({})", hex(&k2));
+                dirs[1 - d].recv_key = kid2.clone();
             }
             if both {
                 let o = sc.ex.rekey_manual(rd, ki, kr);
                 sc.check_panic(&o, "rekey_manually");
-                dirs[d].recv_key = format!("M({})", hex(&k));
+                dirs[d].recv_key = kid;
                 if two {
-                    dirs[1 - d].send_key = format!("M({})", hex(&k2));
+                    dirs[1 - d].send_key = kid2;
                 }
             }
             sc.count("t.rekey_manual");
@@ -1150,6 +1202,8 @@ pub fn run_stateless(cfg: &TransportCfg, sc: &mut Sc) {
     // symbolic key identities per direction: what the sender sends with / the receiver receives with
     let mut skey = ["k".to_string(), "k".to_string()];
     let mut rkey = ["k".to_string(), "k".to_string()];
+    let mut pool = KeyPool::new(sc.raw_keys);
+    let st_rs0: [Option<Vec<u8>>; 2] = [sc.ex.query(1).and_then(|q| q.rs), sc.ex.query(2).and_then(|q| q.rs)];
     let mut rekeyed = false;
     // boundary payload sizes: the largest legal payloads must round-trip, one more must be refused (C14, C16)
     {
@@ -1209,23 +1263,30 @@ pub fn run_stateless(cfg: &TransportCfg, sc: &mut Sc) {
                     }
                 },
                 _ => {
-                    let k: [u8; 32] = r.bytes(32).try_into().unwrap();
-                    let k2: [u8; 32] = r.bytes(32).try_into().unwrap();
+                    let (k, kid) = pool.pick(&mut r, d);
+                    let (k2, kid2) = pool.pick(&mut r, 1 - d);
                     let two = r.chance(1, 2);
                     let (ki, kr) = if two { if d == 0 { (Some(&k), Some(&k2)) } else { (Some(&k2), Some(&k)) } } else if d == 0 { (Some(&k), None) } else { (None, Some(&k)) };
                     sc.ex.rekey_manual(w, ki, kr);
-                    skey[d] = format!("M({})", hex(&k));
+                    skey[d] = kid.clone();
                     if two {
-                        rkey[1 - d] = format!("M({})", hex(&k2));
+                        rkey[1 - d] = kid2.clone();
                     }
                     if r.chance(2, 3) {
                         sc.ex.rekey_manual(rd, ki, kr);
-                        rkey[d] = format!("M({})", hex(&k));
+                        rkey[d] = kid;
                         if two {
-                            skey[1 - d] = format!("M({})", hex(&k2));
+                            skey[1 - d] = kid2;
                         }
                     }
                 },
+            }
+            for sid in [1u32, 2u32] {
+                if let Some(q) = sc.ex.query(sid) {
+                    if q.rs != st_rs0[(sid - 1) as usize] {
+                        sc.viol("C17", format!("{}: stateless sid {sid} reports remote static {:?} after a key change, at conversion it was {:?}", cfg.name, q.rs.as_ref().map(|v| hex(v)), st_rs0[(sid - 1) as usize].as_ref().map(|v| hex(v))));
+                    }
+                }
             }
             // after a key change: one message in each usable direction, accepted iff the key identities agree
             for dd in 0..(if oneway { 1 } else { 2 }) {
